@@ -16,14 +16,16 @@ RULE = ("seeded runs; a run = product (local 2/3, simfs 1/3) x a history of 3-10
         "tree returned by an earlier step, process restart; invariants after every step (tree "
         "identical to reference(rpc) incl. pixels and advertised chunk size; product directory "
         "unchanged except adjacent index files created by the CLI; user cache dir holds only "
-        "*.index and changes only in create_cache=True steps; caller's option dicts unchanged; "
+        "*.index and changes only in create_cache=True steps; no write-type file operation on any "
+        "path outside the user cache dir / product dir (cwd, /tmp, home); caller's option dicts unchanged; "
         "no step raises); every step is one evaluation; distinct key = cache-state / (state, op) "
         "transition / op 3-gram")
 ASSUMPTIONS = [
     "reference(rpc) = fresh use_cache=False open with that rpc, computed in the pristine world "
     "before the history starts",
     "the model's cache state is read from observed listings after every step, never predicted",
-    "writes outside the scratch root (cwd, /tmp) are not observed",
+    "writes outside the scratch root are observed at the open/os.open/rename/mkdir/unlink seams "
+    "only (not through os.write on inherited descriptors or C extensions)",
     "a tree from before a simulated restart is not loaded afterwards",
 ]
 
@@ -113,9 +115,11 @@ def execute(plan):
             a = sorted(w.adjacent())
             return f"u{len(u)}a{len(a)}"
 
+        SIM.watch_outside = True
         for step, op in enumerate(plan["ops"]):
             kind = op["op"]
             before_state = state()
+            del SIM.outside_writes[:]
             user_before = w.user_cache()
             site = kind
             evaluations += 1
@@ -204,6 +208,9 @@ def execute(plan):
                 bad("product-directory-modified", site, step=step, op=op, added=added,
                     removed=removed, changed=changed)
                 pristine = {k: v for k, v in now.items() if k not in expected_adjacent}
+            if SIM.outside_writes:
+                bad("wrote-outside-cache-dir", site, step=step, op=op,
+                    operations=[list(x) for x in SIM.outside_writes[:6]])
             user_after = w.user_cache()
             stray = sorted(fn for (d, fn) in user_after if not fn.endswith(".index"))
             if stray:
